@@ -42,7 +42,14 @@ EXPLANATION = (
     "dict from the handed-in Peer object must cover every address of that object (addresses.update(other.addresses), a loop over all of "
     "other.addresses, a Peer method that does so) - a single picked address (other.address is the preferred interface only) leaves a replaced "
     "address of another interface in the stored peer; reported only when the write can be nothing but one picked address and the function has no "
-    "complete merge."
+    "complete merge. "
+    "Two more clauses of `coherence`: a Network method that puts a peer into a cached per-service list must not skip the insertion merely because "
+    "an EQUAL entry is cached (`peer not in cached`, any(x == peer ...), count): the entry may be an instance of the identity cached before it "
+    "was verified, which would stay and be returned with stale addresses (accepted: identity test, remove-equal-then-append, an insertion site "
+    "outside the equality test, a rebuild); and get_walkable_addresses(service) must not take the peers whose addresses it subtracts from "
+    "self.verified_peers alone whatever the filter (decided positively only: no condition on the service dominates the subtraction and the "
+    "service is handed to no other method of the graph). Collections named in blacklist / known-address guards may be early-bound locals "
+    "(every binding of the local is the attribute)."
 )
 
 NW = "ipv8/peerdiscovery/network.py"
@@ -3228,23 +3235,54 @@ def rule_canonical_instances(ctx: Ctx) -> None:
                       "walkable addresses) disagree with the verified peer's real addresses")
 
 
-def _is_coll(e: ast.AST, coll: str) -> bool:
-    return chain(_unwrap(e)) in (coll, coll + ".keys()")
+def _alias_of(fi: FuncInfo, e: ast.AST, coll: str, depth: int = 3) -> bool:
+    """
+    e IS the object `self.<attr>` named by coll: spelled directly, or a local EVERY binding of which is that attribute (early binding
+    `known, black = self._all_addresses, self.blacklist`, a walrus, an alias of an alias).  A local with one unknown / other binding is not.
+    """
+    e = strip_cast(e)
+    if chain(e) == coll:
+        return True
+    if isinstance(e, ast.NamedExpr):
+        return _alias_of(fi, e.value, coll, depth)
+    if fi is None or depth <= 0 or not isinstance(e, ast.Name) or e.id == "self" or e.id in fi.params():
+        return False
+    vals = _bound_values(fi, e)
+    return bool(vals) and all(v is not None and _alias_of(fi, v, coll, depth - 1) for v in vals)
 
 
-def _quantified(f, coll: str) -> str | None:
+def _is_coll(e: ast.AST, coll: str, fi: FuncInfo | None = None) -> bool:
+    """e has the members (keys) of the stored collection coll: the attribute, its .keys(), a wrapper of them, or (fi given) a local alias"""
+    e = _unwrap(e)
+    if chain(e) in (coll, coll + ".keys()"):
+        return True
+    if fi is None:
+        return False
+    if isinstance(e, ast.Call) and isinstance(e.func, ast.Attribute) and e.func.attr == "keys" and not e.args and not e.keywords:
+        e = e.func.value
+    elif isinstance(e, ast.Name) and e.id not in fi.params():
+        # keys = self._all_addresses.keys() / frozen = set(self.blacklist): every binding has the members of coll.  Only sound for a
+        # binding that is a live view or the object itself - a copy taken earlier may be stale, so only the un-copied spellings count.
+        vals = _bound_values(fi, e)
+        if vals and all(v is not None and isinstance(strip_cast(v), ast.Call) and isinstance(strip_cast(v).func, ast.Attribute)
+                        and strip_cast(v).func.attr == "keys" and not strip_cast(v).args and _alias_of(fi, strip_cast(v).func.value, coll) for v in vals):
+            return True
+    return _alias_of(fi, e, coll)
+
+
+def _quantified(f, coll: str, fi: FuncInfo | None = None) -> str | None:
     """'some-in' (an element is in coll) / 'none-in' (no element is in coll) when fact f says so, else None."""
-    if f.op == "in" and _is_coll(f.right, coll):
+    if f.op == "in" and _is_coll(f.right, coll, fi):
         return "some-in" if f.pos else None
     if f.op == "truthy":
         left = _unwrap(f.left)
-        if isinstance(left, ast.BinOp) and isinstance(left.op, ast.BitAnd) and (_is_coll(left.left, coll) or _is_coll(left.right, coll)):
+        if isinstance(left, ast.BinOp) and isinstance(left.op, ast.BitAnd) and (_is_coll(left.left, coll, fi) or _is_coll(left.right, coll, fi)):
             return "some-in" if f.pos else "none-in"        # set(addresses) & set(coll)
         if isinstance(left, (ast.ListComp, ast.SetComp)) and len(left.generators) == 1 and isinstance(left.generators[0].target, ast.Name) \
                 and _is_name(left.elt, left.generators[0].target.id) and len(left.generators[0].ifs) == 1:
             # [a for a in addresses if a in coll]: non-empty / empty
             fs = _atoms_with_polarity(left.generators[0].ifs[0], True)
-            if len(fs) == 1 and fs[0].op == "in" and fs[0].pos and _is_name(fs[0].left, left.elt.id) and _is_coll(fs[0].right, coll):
+            if len(fs) == 1 and fs[0].op == "in" and fs[0].pos and _is_name(fs[0].left, left.elt.id) and _is_coll(fs[0].right, coll, fi):
                 return "some-in" if f.pos else "none-in"
     if f.op != "truthy" or not isinstance(f.left, ast.Call):
         return None
@@ -3260,13 +3298,13 @@ def _quantified(f, coll: str) -> str | None:
         if (name == "any") == f.pos:
             # any(...) holds / all(...) fails: for SOME element elt is true (any) resp. false (all)
             fs = _atoms_with_polarity(elt, name == "any")
-            return "some-in" if any(x.op == "in" and x.pos and _is_coll(x.right, coll) for x in fs) else None
+            return "some-in" if any(x.op == "in" and x.pos and _is_coll(x.right, coll, fi) for x in fs) else None
         # all(...) holds / any(...) fails: for EVERY element elt is true (all) resp. false (any)
         fs = _atoms_with_polarity(elt, name == "all")
-        return "none-in" if any(x.op == "in" and not x.pos and _is_coll(x.right, coll) for x in fs) else None
-    if isinstance(c.func, ast.Attribute) and c.func.attr == "isdisjoint" and len(c.args) == 1 and (_is_coll(c.func.value, coll) or _is_coll(c.args[0], coll)):
+        return "none-in" if any(x.op == "in" and not x.pos and _is_coll(x.right, coll, fi) for x in fs) else None
+    if isinstance(c.func, ast.Attribute) and c.func.attr == "isdisjoint" and len(c.args) == 1 and (_is_coll(c.func.value, coll, fi) or _is_coll(c.args[0], coll, fi)):
         return "none-in" if f.pos else "some-in"
-    if isinstance(c.func, ast.Attribute) and c.func.attr == "intersection" and len(c.args) == 1 and (_is_coll(c.func.value, coll) or _is_coll(c.args[0], coll)):
+    if isinstance(c.func, ast.Attribute) and c.func.attr == "intersection" and len(c.args) == 1 and (_is_coll(c.func.value, coll, fi) or _is_coll(c.args[0], coll, fi)):
         return "some-in" if f.pos else "none-in"        # a non-empty / empty intersection with coll
     return None
 
@@ -3334,22 +3372,21 @@ def _mid_edge_of(ctx: Ctx):
             return _resolves_to(fi, x, lambda y: chain(strip_cast(y)) == f"{w}.mid")
         if isinstance(f.left, (ast.For, ast.AsyncFor)):
             return _searched_without_match(ctx, fi, f, "self.blacklist_mids", is_mid)
-        return f.op == "in" and not f.pos and chain(_unwrap(f.right)) == "self.blacklist_mids" and is_mid(f.left)
+        return f.op == "in" and not f.pos and _is_coll(f.right, "self.blacklist_mids", fi) and is_mid(f.left)
     return edge
 
 
 def _address_edge(ctx: Ctx):
     """the edge establishes that SOME address of the peer is already known, or that NO address of the peer is blacklisted"""
-    def not_black(g, x):
-        return g.op == "in" and not g.pos and _is_name(g.left, x) and _is_coll(g.right, "self.blacklist")
-
     def edge(fi: FuncInfo, f, who) -> bool:
+        def not_black(g, x):
+            return g.op == "in" and not g.pos and _is_name(g.left, x) and _is_coll(g.right, "self.blacklist", fi)
         if isinstance(f.left, (ast.For, ast.AsyncFor)):
             # `for a in peer.addresses.values(): if a in self.blacklist: return` ran to exhaustion: no address is blacklisted
             return not f.pos and _over_addresses(fi, f.left.iter, who) and _loop_forall(ctx, fi, f.left, not_black)
         if isinstance(f.left, ast.While):
             return False
-        return _quantified(f, "self._all_addresses") == "some-in" or _quantified(f, "self.blacklist") == "none-in"
+        return _quantified(f, "self._all_addresses", fi) == "some-in" or _quantified(f, "self.blacklist", fi) == "none-in"
     return edge
 
 
@@ -3402,7 +3439,7 @@ def rule_blacklists(ctx: Ctx) -> None:
             return False
         if isinstance(f.left, (ast.For, ast.AsyncFor)):
             return _searched_without_match(ctx, fi, f, "self.blacklist", lambda x: same_resolved(fi, x, who))
-        return f.op == "in" and not f.pos and same_resolved(fi, f.left, who) and chain(_unwrap(f.right)) == "self.blacklist"
+        return f.op == "in" and not f.pos and same_resolved(fi, f.left, who) and _is_coll(f.right, "self.blacklist", fi)
     n_stores = 0
     for frames in _reach_sites(ctx, net, da, stores_of):
         fi, st = frames[-1]
@@ -4251,6 +4288,92 @@ def _dirtying_factory(ctx: Ctx, dd, ref: ast.AST) -> bool:
     return False
 
 
+def _absent_by_equality(fi: FuncInfo, g, recv: ast.AST, value: ast.AST) -> bool:
+    """fact g says that no entry of the list `recv` EQUALS the inserted peer: `<peer> not in <recv>`, `not any(x == <peer> for x in <recv>)`,
+    `<recv>.count(<peer>) == 0` / falsy.  <peer>: the inserted value, or the Peer object the inserted value was looked up for."""
+    def is_peer(x):
+        x = strip_cast(x)
+        return same_resolved(fi, x, value) or (isinstance(x, ast.Name) and any(isinstance(y, ast.Name) and y.id == x.id for y in ast.walk(resolve(fi, value))))
+
+    def is_recv(x):
+        return same_resolved(fi, _unwrap(x), recv)
+    if isinstance(g.left, (ast.For, ast.AsyncFor, ast.While)):
+        return False
+    if g.op == "in":
+        return not g.pos and is_peer(g.left) and is_recv(g.right)
+    left = strip_cast(g.left)
+    if g.op == "truthy" and not g.pos and isinstance(left, ast.Call):
+        if chain(left.func) == "any" and len(left.args) == 1 and isinstance(left.args[0], (ast.GeneratorExp, ast.ListComp)) \
+                and len(left.args[0].generators) == 1 and not left.args[0].generators[0].ifs and is_recv(left.args[0].generators[0].iter) \
+                and isinstance(left.args[0].generators[0].target, ast.Name):
+            x = left.args[0].generators[0].target.id
+            return any(a_.op == "eq" and a_.pos and ((_is_name(a_.left, x) and is_peer(a_.right)) or (_is_name(a_.right, x) and is_peer(a_.left)))
+                       for a_ in _atoms_with_polarity(left.args[0].elt, True)) and len(_atoms_with_polarity(left.args[0].elt, True)) == 1
+        return isinstance(left.func, ast.Attribute) and left.func.attr == "count" and len(left.args) == 1 and is_recv(left.func.value) and is_peer(left.args[0])
+    if g.op == "eq" and g.pos and isinstance(left, ast.Call) and isinstance(left.func, ast.Attribute) and left.func.attr == "count" and len(left.args) == 1:
+        return const_value(g.right) == 0 and is_recv(left.func.value) and is_peer(left.args[0])
+    return False
+
+
+def _source_leaves(fi: FuncInfo, e: ast.AST, depth: int = 4) -> list[ast.AST] | None:
+    """the non-local expressions the value of e can be (every binding of every local followed; conditional expressions / and / or split);
+    None when a binding is not syntactically known"""
+    out: list[ast.AST] = []
+    for p_ in _value_positions(e):
+        if isinstance(p_, ast.Name) and p_.id not in fi.params():
+            defs = local_defs(fi, p_.id)
+            if depth <= 0 or not defs or any(v is None or idx is not None for _st, v, idx in defs):
+                return None
+            for _st, v, _i in defs:
+                sub = _source_leaves(fi, v, depth - 1)
+                if sub is None:
+                    return None
+                out += sub
+        else:
+            out.append(p_)
+    return out
+
+
+def _service_blind_subtraction(ctx: Ctx, net, gw: FuncInfo, subs, svc: str) -> None:
+    def names(x):
+        return {y.id for y in ast.walk(x) if isinstance(y, ast.Name)}
+    if svc in ("self",) or not any(svc in names(st) for st in gw.node.body):
+        return
+    for c in calls(gw):
+        # the service handed to another method of the graph (the per-service reader, a helper): the answer may be computed there
+        if (chain(c.func) or "").startswith("self.") and any(svc in names(a_) for a_ in list(c.args) + [k.value for k in c.keywords]):
+            return
+    seen: list[ast.AST] = []
+
+    def source(x):
+        ok = _peer_source(gw, x)
+        if ok:
+            seen.append(x)
+        return ok
+    for _node, sub in subs:
+        if not _all_addresses_of(ctx, gw, sub, source=source)[0]:
+            return
+    if not seen:
+        return
+    for x in seen:
+        leaves = _source_leaves(gw, x)
+        if not leaves or any(chain(_unwrap(y)) != "self.verified_peers" for y in leaves):
+            return
+    for node, _sub in subs:
+        try:
+            fs = _facts_here(ctx, gw, node if ctx.cfg(gw).nodes_for(node) else enclosing_stmt(node))
+        except Exception:  # noqa: BLE001
+            return
+        if any(svc in names(f.atom) for f in fs if isinstance(getattr(f, "atom", None), ast.AST)):
+            return
+        if any(not isinstance(getattr(f, "atom", None), ast.AST) for f in fs):
+            return
+    ctx.check(False, "coherence", gw, gw.node, f"walkable addresses for a service = known addresses minus the addresses of the verified peers of THAT service (`{svc}`)",
+              f"get_walkable_addresses({svc}) subtracts the addresses of ALL verified peers (`{norm(seen[0])[:40]}`) whatever the service filter: the address of a verified "
+              f"peer that does not advertise the service, but was introduced by / discovered through a peer of the service, is never reported walkable for it - the "
+              "per-service walkable addresses disagree with what the verified peers, their advertised services and the introductions imply")
+
+
 def rule_walkable_and_peer(ctx: Ctx) -> None:
     repo = ctx.repo
     net = repo.cls("Network", NW)
@@ -4278,6 +4401,14 @@ def rule_walkable_and_peer(ctx: Ctx) -> None:
         ctx.check(ok, "coherence", gw, gw.node, "walkable addresses = all known addresses minus peer.addresses.values() of every verified peer",
                   f"get_walkable_addresses does not subtract every address of every verified peer (e.g. only the preferred one): `{norm(sub)[:60]}` is "
                   f"{how}; an address of a verified peer is reported walkable", [how])
+    # with a service filter the subtracted peers are the peers OF THAT SERVICE: an address is walkable for service S unless a verified peer
+    # advertising S uses it.  Subtracting the addresses of ALL verified peers whatever the filter hides the address of a verified peer that
+    # does not advertise S although it was introduced by / discovered through a peer of S.  Decided positively only: reported when every
+    # subtraction of the query takes its peers from nothing but self.verified_peers, no condition on the service dominates it and the
+    # service is handed to no other method of the graph that could compute the per-service answer.
+    if subs and gwf is gw and len(_params_of(gw)) >= 1:
+        svc = _params_of(gw)[0]
+        _service_blind_subtraction(ctx, net, gw, subs, svc)
     # Peer.address is cached behind DirtyDict.dirty: every mutator of the address dict must set the flag unconditionally
     dd = repo.cls("DirtyDict", "ipv8/peer.py")
     n = 0
@@ -4304,6 +4435,7 @@ def rule_walkable_and_peer(ctx: Ctx) -> None:
               "Peer.address consults the dirty flag", "")
     # cache-exists tests use `is not None`: an empty cached list is a valid (complete) cache entry
     n = 0
+    eq_guarded: dict = {}
     for f in net.methods.values():
         for idx in ("reverse_service_lookup", "reverse_intro_lookup"):
             cfg = None
@@ -4336,11 +4468,40 @@ def rule_walkable_and_peer(ctx: Ctx) -> None:
                 r_ = resolve(f, recv)
                 if isinstance(r_, ast.Subscript) and chain(r_.value) == f"self.{idx}":
                     # self.<idx>[k].append(x) under `k in self.<idx>`: the entry exists
-                    notnone = notnone or any(f_.op == "in" and f_.pos and same_resolved(f, f_.left, r_.slice) and _is_coll(f_.right, f"self.{idx}") for f_ in fs)
+                    notnone = notnone or any(f_.op == "in" and f_.pos and same_resolved(f, f_.left, r_.slice) and _is_coll(f_.right, f"self.{idx}", f) for f_ in fs)
+                if idx == "reverse_service_lookup" and call_name(c) in ("append", "insert") and c.args:
+                    eq_guarded.setdefault((id(f.node), v), []).append((f, c, recv, c.args[-1], fs))
                 ctx.check(notnone and not truthy, "coherence", f, c, f"{f.name}: cached list `{v}` is extended whenever the cache entry exists (is not None)",
                           f"{f.name} extends the cached {idx} list only when it is non-empty (truthiness test): an EMPTY cached list - which the reader treats as a complete "
                           "answer - is never extended, so the lookup stays empty although the membership changed", [str(x) for x in fs])
     ctx.floor("coherence.cache-exists", n, 2)
+    # an equal-but-not-identical instance can not stay in a cached per-service list: peers compare equal by public key, the reader of the
+    # list validates by equality, and address updates are merged into the STORED instance only.  So a method that puts a peer into a cached
+    # list must not skip the insertion merely because an EQUAL entry is there (`peer not in cached`): the entry may be an instance of the
+    # identity cached before it was verified.  Accepted: an identity test (no equality fact dominates the insertion), remove-equal-then-
+    # append (a removal from the same list reaches the insertion, or some insertion site is not behind the equality test), a rebuild.
+    for sites in eq_guarded.values():
+        f = sites[0][0]
+        cfg = ctx.cfg(f)
+        skipped = []
+        if any(isinstance(t_, ast.Subscript) and same_resolved(f, t_.value, sites[0][2]) for st in walk_no_nested(f.node) if isinstance(st, ast.Assign) for t_ in st.targets):
+            continue            # `cached[i] = peer`: an equal entry is REPLACED in place - an insertion site outside the equality test
+        for _f, c, recv, value, fs in sites:
+            eq = [g for g in fs if _absent_by_equality(f, g, recv, value)]
+            if not eq:
+                break           # this insertion happens whether or not an equal entry is cached
+            at = cfg.nodes_for(c)
+            removed = [m for r_ in calls(f) if call_name(r_) in ("remove", "pop", "clear") and isinstance(r_.func, ast.Attribute)
+                       and same_resolved(f, r_.func.value, recv) for m in cfg.nodes_for(r_)]
+            if removed and any(a_ in cfg.reach(removed, follow_exc=False) for a_ in at):
+                break           # remove-equal-then-append
+            skipped.append((c, eq[0]))
+        else:
+            c, g = skipped[0]
+            ctx.check(False, "coherence", f, c, f"{f.name}: a peer is put into the cached per-service list whenever that very instance is not in it",
+                      f"{f.name} skips `{norm(c)[:50]}` when an EQUAL entry is cached (`{g}`; Peer equality is the public key): an instance of the same identity that was "
+                      "cached before the identity was verified stays in the list, and get_peers_for_service keeps returning that early instance (stale addresses) instead of "
+                      "the verified one - peers-per-service disagrees with the verified peers and their addresses", [str(x) for x in sites[0][4]])
 
 
 # ------------------------------------------------------------------------------------------------------------------
@@ -5334,8 +5495,23 @@ WITNESSES = [
                                  and self._all_addresses[address].introduced_by == key_material]""",
      "new": "                pass"},
     {"name": "pre-fix: new verified peer missing from service cache", "file": NW, "rule": "coherence",
-     "old": "            if service_cache is not None and peer not in service_cache:\n                service_cache.append(peer)",
-     "new": "            if service_cache is not None and peer not in service_cache:\n                pass"},
+     "old": """                if peer in service_cache:
+                    # An instance of this identity that was cached before it was verified: the verified one replaces it.
+                    service_cache.remove(peer)
+                service_cache.append(peer)
+""",
+     "new": "                pass\n"},
+    {"name": "per-service walkable addresses subtract the addresses of ALL verified peers (seeded C12-m17)", "file": NW, "rule": "coherence",
+     "old": "            known = self.get_peers_for_service(service_id) if service_id else self.verified_peers",
+     "new": "            known = self.verified_peers"},
+    {"name": "pre-fix fb481e6: a newly verified peer is not cached when an EQUAL (early, unverified) instance is in the per-service list", "file": NW, "rule": "coherence",
+     "old": """            if service_cache is not None and not any(cached is peer for cached in service_cache):
+                if peer in service_cache:
+                    # An instance of this identity that was cached before it was verified: the verified one replaces it.
+                    service_cache.remove(peer)
+                service_cache.append(peer)""",
+     "new": """            if service_cache is not None and peer not in service_cache:
+                service_cache.append(peer)"""},
     {"name": "pre-fix: partial intro cache entry", "file": NW, "rule": "coherence",
      "old": "                if intro_cache is not None and address not in intro_cache:\n                    # Only extend a complete cached list: a missing entry is rebuilt from scratch when it is queried.\n                    intro_cache.append(address)\n",
      "new": "                if intro_cache:\n                    intro_cache.append(address)\n                else:\n                    self.reverse_intro_lookup[peer] = [address]\n"},
